@@ -55,6 +55,53 @@ def plus(a, k):
     return Expr("Add", (a, Conc(k)), (64, False))
 
 
+def field_roles(P, sty, value=None):
+    """Roles of the fields of one of the (private) mapped-iterator / Traverse records, found by *type* and, for the two
+    `usize` counters of the keyed iterators, by the value the public constructor gives them (0 -> last_index, otherwise the
+    offset).  Field names are not used: renaming a private field must not matter."""
+    flds = P.types[sty]["variants"][0]["fields"]
+    roles = {}
+    usize = []
+    for i, f in enumerate(flds):
+        ts = P.types[f["ty"]]["s"]
+        if ts == "usize":
+            usize.append(i)
+        elif "CodeMap" in ts:
+            roles["code_map"] = i
+        elif "json_syntax::object::Indexes" in ts:
+            roles["indexes"] = i
+        elif ts.startswith("&") and "json_syntax::Object" in ts:
+            roles["object"] = i
+        elif "std::slice::Iter" in ts:
+            roles["iter"] = i
+        elif "SmallVec" in ts or "std::vec::Vec" in ts:
+            roles["stack"] = i
+    if len(usize) == 1:
+        roles["offset"] = usize[0]
+    elif len(usize) == 2:
+        if value is not None:
+            zero = [i for i in usize if value.fields[i] == Conc(0)]
+            if len(zero) == 1:
+                roles["last_index"] = zero[0]
+                roles["offset"] = [i for i in usize if i != zero[0]][0]
+        if "offset" not in roles:  # fall back on the names
+            names = [f["name"] for f in flds]
+            if "offset" in names and "last_index" in names:
+                roles["offset"], roles["last_index"] = names.index("offset"), names.index("last_index")
+    return roles
+
+
+def build_record(P, sty, roles, vals):
+    n = len(P.types[sty]["variants"][0]["fields"])
+    inv = {i: r for r, i in roles.items()}
+    if len(inv) != n or any(inv[i] not in vals for i in range(n)):
+        raise Undecided("cannot identify the fields of %s (%r)" % (P.types[sty]["s"], roles))
+    return Agg(sty, 0, tuple(vals[inv[i]] for i in range(n)))
+
+
+ROLES = {}
+
+
 def mk_shape(P, entry_ty):
     sh = shape.Shape(P)
 
@@ -106,7 +153,9 @@ def iter_rule(ctx, res):
         items = sh.st.new_obj(AVec((Top(None, "item0"), Top(None, "item1")), "items"))
         itr = sh.st.new_obj(AIter(items.id, 0, 2))
         off = sh.sym(kind="offset")
-        me = sh.st.new_obj(Agg(T["json_syntax::array::IterMapped"]["id"], 0, (itr, sh.cell(Top(None, "code-map")), off)))
+        aty = T["json_syntax::array::IterMapped"]["id"]
+        ar = field_roles(P, aty)
+        me = sh.st.new_obj(build_record(P, aty, ar, {"iter": itr, "code_map": sh.cell(Top(None, "code-map")), "offset": off}))
         outs = sh.run(inst, [Ref(("H", me.id), ())])
         ok = len(outs) == 1 and outs[0].outcome[0] == "return"
         res.ob(ok, rule, rule + "/array/paths", "array::IterMapped::next: %d paths" % len(outs))
@@ -116,7 +165,7 @@ def iter_rule(ctx, res):
             m_off, m_val = mapped_fields(P, rv.fields[0]) if isinstance(rv, Agg) and rv.variant == 1 else (None, None)
             res.ob(m_off == off and m_val == Ref(("H", items.id), (("el", 0),)), rule, rule + "/array/yield", "array::IterMapped must yield the next item at the current offset (yields offset %r, item %r)" % (m_off, m_val),
                    sample={"iterator": "array::IterMapped", "yields": "(offset, item)"})
-            new_off = o.heap[me.id].fields[2]
+            new_off = o.heap[me.id].fields[ar["offset"]]
             res.ob(same(new_off, Expr("Add", (off, vol(off)), None)), rule, rule + "/array/step", "array::IterMapped must advance by the volume of the item it yields: offset' = %r, expected offset + VOL[offset]" % (new_off,),
                    sample={"iterator": "array::IterMapped", "step": "offset + VOL[offset]"})
         res.count("iterators")
@@ -152,13 +201,15 @@ def iter_rule(ctx, res):
             outs = sh.run(rinst, args)
             ok = len(outs) == 1 and outs[0].outcome[0] == "return"
             rv = outs[0].outcome[1] if ok else None
-            t = P.types[rv.ty] if isinstance(rv, Agg) and rv.ty is not None else None
-            names = [f["name"] for f in t["variants"][0]["fields"]] if t else []
-            start = rv.fields[names.index("offset")] if "offset" in names else None
+            roles = field_roles(P, rv.ty, rv) if isinstance(rv, Agg) and rv.ty is not None else {}
+            if roles:
+                ROLES[rv.ty] = roles
+            start = rv.fields[roles["offset"]] if "offset" in roles else None
             res.ob(ok and start is not None and same(start, plus(off, 1)), rule, "%s/start/%s" % (rule, what), "%s must start at offset + 1 (the first child of a container), starts at %r" % (what, start),
                    sample={"constructor": what, "starts_at": "offset + 1"})
-            if "last_index" in names:
-                res.ob(rv.fields[names.index("last_index")] == Conc(0), rule, "%s/start/%s/last_index" % (rule, what), "%s must start with last_index = 0" % what)
+            if isinstance(rv, Agg) and len([f for f in P.types[rv.ty]["variants"][0]["fields"] if P.types[f["ty"]]["s"] == "usize"]) == 2:
+                res.ob("last_index" in roles, rule, "%s/start/%s/last_index" % (rule, what), "%s must start with its entry counter at 0 and its offset at offset + 1 (counters: %r)" % (
+                    what, [rv.fields[i] for i, f in enumerate(P.types[rv.ty]["variants"][0]["fields"]) if P.types[f["ty"]]["s"] == "usize"]))
             res.count("iterators")
         except Undecided as e:
             res.violation(rule, "%s/start/%s/undecided" % (rule, what), "while interpreting: %s" % e)
@@ -186,7 +237,9 @@ def iter_rule(ctx, res):
         ents = entries_vec(sh, 2)
         itr = sh.st.new_obj(AIter(ents.id, 0, 2))
         off = sh.sym(kind="offset")
-        me = sh.st.new_obj(Agg(T["json_syntax::object::IterMapped"]["id"], 0, (itr, sh.cell(Top(None, "code-map")), off)))
+        oity = T["json_syntax::object::IterMapped"]["id"]
+        orl = field_roles(P, oity)
+        me = sh.st.new_obj(build_record(P, oity, orl, {"iter": itr, "code_map": sh.cell(Top(None, "code-map")), "offset": off}))
         outs = sh.run(inst, [Ref(("H", me.id), ())])
         ok = len(outs) == 1 and outs[0].outcome[0] == "return"
         res.ob(ok, rule, rule + "/object/paths", "object::IterMapped::next: %d paths" % len(outs))
@@ -197,7 +250,7 @@ def iter_rule(ctx, res):
                 check_entry_yield(P, rv.fields[0], off, ents, 0, "object::IterMapped", rule + "/object")
             else:
                 res.violation(rule, rule + "/object/yield", "object::IterMapped::next yields nothing on a non-empty object")
-            new_off = o.heap[me.id].fields[2]
+            new_off = o.heap[me.id].fields[orl["offset"]]
             res.ob(same(new_off, Expr("Add", (plus(off, 2), vol(plus(off, 2))), None)), rule, rule + "/object/step",
                    "object::IterMapped must advance by 2 + the volume of the entry's value: offset' = %r, expected offset + 2 + VOL[offset + 2]" % (new_off,),
                    sample={"iterator": "object::IterMapped", "step": "offset + 2 + VOL[offset+2]"})
@@ -223,15 +276,15 @@ def iter_rule(ctx, res):
             indexes = Agg(ity, some_v, (Agg(opt_usize, 1, (Conc(2),)), oiter))
             off = sh.sym(kind="offset")
             sty = P.types[inst["locals"][1]]["to"]
-            snames = [f["name"] for f in P.types[sty]["variants"][0]["fields"]]
+            kr = ROLES.get(sty) or field_roles(P, sty)
             vals = {"indexes": indexes, "object": obj, "code_map": sh.cell(Top(None, "code-map")), "offset": off, "last_index": Conc(0)}
-            me = sh.st.new_obj(Agg(sty, 0, tuple(vals[n] for n in snames)))
+            me = sh.st.new_obj(build_record(P, sty, kr, vals))
             outs = sh.run(inst, [Ref(("H", me.id), ())])
             if len(outs) != 1 or outs[0].outcome[0] != "return":
                 res.violation(rule, key + "/paths", "%s::next: %s" % (nm, [o.outcome[0] for o in outs]))
                 continue
             o = outs[0]
-            st_after = dict(zip(snames, o.heap[me.id].fields))
+            st_after = {r: o.heap[me.id].fields[i] for r, i in kr.items()}
             o1 = Expr("Add", (plus(off, 2), vol(plus(off, 2))), None)
             o2 = Expr("Add", (plus(o1, 2), vol(plus(o1, 2))), None)
             res.ob(same(st_after["offset"], o2) and st_after["last_index"] == Conc(2), rule, key + "/catch-up",
@@ -411,12 +464,13 @@ def traverse_rule(ctx, res):
         ok = len(outs) == 1 and outs[0].outcome[0] == "return"
         if ok:
             rv = outs[0].outcome[1]
-            tt = P.types[rv.ty]
-            fn = [f["name"] for f in tt["variants"][0]["fields"]]
+            tro = field_roles(P, rv.ty)
+            if "offset" not in tro:
+                raise Undecided("cannot identify the counter of Traverse (%r)" % (tro,))
             ev = shape.events(outs[0])
             pushed = [e for e in ev if e[0] in ("sv_push", "ext") and "push" in e[3]]
             okp = len(pushed) == 1 and isinstance(pushed[0][1][1], Agg) and pushed[0][1][1].fields[0] == me
-            res.ob(rv.fields[fn.index("offset")] == Conc(0) and okp, rule, rule + "/start", "traverse() must start numbering at 0 with the root value on the stack (offset %r, pushes %r)" % (rv.fields[fn.index("offset")], [repr(p[1][1]) for p in pushed]),
+            res.ob(rv.fields[tro["offset"]] == Conc(0) and okp, rule, rule + "/start", "traverse() must start numbering at 0 with the root value on the stack (offset %r, pushes %r)" % (rv.fields[tro["offset"]], [repr(p[1][1]) for p in pushed]),
                    sample={"traverse": "offset 0, stack [root]"})
         else:
             res.violation(rule, rule + "/start/paths", "Value::traverse: %d paths" % len(outs))
